@@ -99,6 +99,7 @@ func checkC05(r *Run) {
 	r.Rule("C05.R2.GUARD", "control-plane state (region.curr/gates/counter/timeRange, Gate.authority, Controller.regions) is accessed under its lock", 20)
 	r.Rule("C05.R2.atomic", "Controller.remove decides emptiness and removes the region inside one Controller.mu write section; Gate.position is taken from region.counter, which only ever increases", 3)
 	r.Rule("C05.R4.rejected", "idxWriter.write advances the index high-water mark before authorization, so every path on which a write was rejected as ErrUnauthorized resets hasUncommittedData before returning", 1)
+	r.Rule("C05.ERR", "in the cesium writer/control code no error is discarded, replaced inside its own failure branch, or accumulated over a loop from a possibly-nil value (an ErrUnauthorized of one index group must survive the groups written after it)", 1)
 	r.Rule("C05.R3.transfers", "every call in package cesium that yields a control.Transfer or ControlUpdate binds it, appends it to a ControlUpdate on the success/Occurred path and forwards that update (updateControlDigests / updateDBControl / return); discards only where tabled", 10)
 
 	la := applyLockRules(r, p, lockRuleSet{Prefix: "C05.R2", Scope: cesiumScope, Guards: cesiumGuards[6:12], MinOps: 100, MinAcc: 40})
@@ -106,6 +107,9 @@ func checkC05(r *Run) {
 	checkControlAtomic(r, p, la)
 	checkTransfers(r, p)
 	checkRejectedWrite(r, p)
+	checkErrDrop(r, p, "C05.ERR", func(fn *FuncNode) bool {
+		return fn.InPkgs("cesium") && !fn.InPkgs("cesium/internal/testutil", "cesium/internal/domain", "cesium/internal/index", "cesium/internal/meta", "cesium/internal/migrate")
+	}, 300)
 }
 
 // checkRejectedWrite decides C05.R4: idxWriter.write advances the index high-water mark
